@@ -319,7 +319,7 @@ pub fn one(data: &[u8]) {
                 now: Instant { secs: 1_440_938_160 + (c.u16() as i64 - 32768) * 60, nanos: 0 },
                 s3: c.bool(),
                 fold: c.bool(),
-                reqs: Reqs { always: if c.bool() { vec!["Content-Type".into()] } else { vec![] }, if_in_request: vec![], prefixes: if c.bool() { vec!["x-amz-".into()] } else { vec![] }, route: c.u8() % 3 },
+                reqs: Reqs { always: if c.bool() { vec!["Content-Type".into()] } else { vec![] }, if_in_request: vec![], prefixes: if c.bool() { vec!["x-amz-".into()] } else { vec![] }, route: c.u8() % 5 },
             };
             let method = METHODS[c.pick(METHODS.len())].to_string();
             let body = B(c.bytes(120));
@@ -417,7 +417,7 @@ pub fn one(data: &[u8]) {
             let mut plan = decode_plan(&mut c);
             const N: &[&str] = &["content-type", "etag", "x-amz-meta-a", "x-custom", "accept", "x-a"];
             const P: &[&str] = &["x-amz-meta-", "x-amz-", "x-custom", "x-", "my-header", "e"];
-            let mut reqs = Reqs { route: c.u8() % 3, ..Reqs::default() };
+            let mut reqs = Reqs { route: c.u8() % 5, ..Reqs::default() };
             for _ in 0..c.pick(3) {
                 reqs.always.push(spell_header_name(N[c.pick(N.len())], c.u8()));
             }
